@@ -79,6 +79,9 @@ def aclSpecial (acl : Acl) (type permset tag : Nat) : Option Acl :=
 
 /-- The validity checks at the head of `acl_new_entry` (`false` = returns NULL). -/
 def newEntryValid (acl : Acl) (type permset tag : Nat) : Bool :=
+  -- `switch (type)`: exactly one of the six entry types
+  (type = typeAccess ∨ type = typeDefault ∨ type = typeAllow ∨ type = typeDeny ∨ type = typeAudit ∨
+    type = typeAlarm) ∧
   (if type &&& typeNfs4 ≠ 0 then
      within acl.types typeNfs4 ∧ within permset (permsNfs4 ||| inheritanceNfs4)
    else if type &&& typePosix1e ≠ 0 then
